@@ -56,7 +56,17 @@ def make_dataset(conv, shape, variant):
         return ds, CFGrid2D(ds), {'face': (ny, nx)}
     if conv == 'shoc_simple':
         nj, ni = shape
-        ds = builders.shoc_simple(nj, ni, data_vars={'v': (('i', 'j'), numpy.zeros((ni, nj)))})
+        data = {'v': (('i', 'j'), numpy.zeros((ni, nj)))}
+        if variant == 'lookalikes':
+            # variables that carry the standard names of the coordinates without being them (a 3-D latitude field, a
+            # transposed copy), listed first: the grid is still the (j, i) grid of the real coordinate variables
+            data = {'lat3d': (('k', 'j', 'i'), numpy.zeros((2, nj, ni)), {'standard_name': 'latitude', 'units': 'degrees_north'}),
+                    'lonT': (('i', 'j'), numpy.zeros((ni, nj)), {'standard_name': 'longitude', 'units': 'degrees_east'}), **data}
+            builders.DATA_FIRST = True
+        try:
+            ds = builders.shoc_simple(nj, ni, data_vars=data)
+        finally:
+            builders.DATA_FIRST = False
         return ds, ShocSimple(ds), {'face': (nj, ni)}
     if conv == 'shoc_standard':
         nj, ni = shape
@@ -79,8 +89,18 @@ def make_dataset(conv, shape, variant):
             'edgefaceT': dict(supply=('edge_face',), transposed=True, fill='attr'),
             # the mesh names an edge-node table that is not in the dataset (dropped with its variables): no edge grid
             'dangling': dict(),
+            # a second mesh topology variable (a 1-D network, a coarser mesh) after the one the dataset is about
+            'secondmesh': dict(supply=('edge_node',)),
         }[mode]
         ds = builders.ugrid(mesh, **kw)
+        if mode == 'secondmesh':
+            ds = ds.assign(
+                coarse_node_x=(('ncoarse',), numpy.array([0.0, 1.0, 0.0])), coarse_node_y=(('ncoarse',), numpy.array([0.0, 0.0, 1.0])),
+                coarse_face_node=(('ncoarseface', 'Three'), numpy.array([[0, 1, 2]], dtype='int32'), {'cf_role': 'face_node_connectivity', 'start_index': 0}),
+                coarse=((), numpy.int32(0), {'cf_role': 'mesh_topology', 'topology_dimension': 2, 'node_coordinates': 'coarse_node_x coarse_node_y',
+                                            'face_node_connectivity': 'coarse_face_node'}),
+                network=((), numpy.int32(0), {'cf_role': 'mesh_topology', 'topology_dimension': 1, 'node_coordinates': 'coarse_node_x coarse_node_y',
+                                             'edge_node_connectivity': 'edge_node'}))
         if mode == 'dangling':
             ds['mesh'].attrs['edge_node_connectivity'] = 'edge_node_that_was_dropped'
             ds['mesh'].attrs['edge_face_connectivity'] = 'edge_face_that_was_dropped'
@@ -238,6 +258,8 @@ def cases(tier):
         for variant in ('coords', 'plainvars', 'lonT'):
             configs.append(('cf2d', shp, variant, ['face']))
         configs.append(('shoc_simple', shp, '-', ['face']))
+        if shp[0] != shp[1]:
+            configs.append(('shoc_simple', shp, 'lookalikes', ['face']))
         configs.append(('shoc_standard', shp, '-', ['face', 'left', 'back', 'node']))
         if shp[0] != shp[1]:
             configs.append(('shoc_standard', shp, 'named', ['face', 'left', 'back', 'node']))
@@ -245,6 +267,8 @@ def cases(tier):
     for mesh in meshes:
         configs.append(('ugrid', mesh, 'noedge', ['face', 'node']))
         configs.append(('ugrid', mesh, 'dangling', ['face', 'node']))
+        if mesh in ('tq', 'tqp'):
+            configs.append(('ugrid', mesh, 'secondmesh', ['face', 'node', 'edge']))
         configs.append(('ugrid', mesh, 'edgedim', ['face', 'node', 'edge']))
         configs.append(('ugrid', mesh, 'edgeimplied', ['face', 'node', 'edge']))
         if mesh not in ('tri', 'qqq', 'fan'):
